@@ -130,6 +130,16 @@ type Track struct {
 	Accts   []string
 }
 
+// partyNames: the scenario accounts plus the governance module account (a party of its own through proposals).
+func (w *World) partyNames() []string { return append(append([]string{}, w.Names...), "gov") }
+
+func (w *World) partyAddr(n string) sdk.AccAddress {
+	if n == "gov" {
+		return w.GovAddr
+	}
+	return w.Accts[n].Addr
+}
+
 func (w *World) acctNames() []string {
 	return append(append([]string{}, w.Names...), "V")
 }
@@ -160,8 +170,8 @@ func (w *World) Project(tr *Track) (res J) {
 	// --- bank
 	bal := J{}
 	spend := J{}
-	for _, n := range w.Names {
-		ad := w.Accts[n].Addr
+	for _, n := range w.partyNames() {
+		ad := w.partyAddr(n)
 		bal[n] = w.balJ(ctx, ad)
 		sp := J{}
 		sc := a.BankKeeper.SpendableCoins(ctx, ad)
@@ -313,13 +323,13 @@ func (w *World) projEnt(ctx sdk.Context) J {
 		panic(err)
 	}
 	wl := J{}
-	for _, n := range w.Names {
+	for _, n := range w.partyNames() {
 		wl[n] = false
 	}
 	wlExtra := int64(0)
 	for _, ad := range wlr.Addresses {
 		n := w.nameOf(ad)
-		if contains(w.Names, n) {
+		if contains(w.partyNames(), n) {
 			wl[n] = true
 		} else {
 			wlExtra++
@@ -329,8 +339,8 @@ func (w *World) projEnt(ctx sdk.Context) J {
 	e["wlExtra"] = wlExtra
 	locked, spent := J{}, J{}
 	lockedDenOk := true
-	for _, n := range w.Names {
-		ad := w.Accts[n].Addr.String()
+	for _, n := range w.partyNames() {
+		ad := w.partyAddr(n).String()
 		lr, err := k.LockedUndByAddress(g, &enttypes.QueryLockedUndByAddressRequest{Owner: ad})
 		if err != nil {
 			panic(err)
@@ -345,7 +355,7 @@ func (w *World) projEnt(ctx sdk.Context) J {
 	// books kept for addresses outside the scenario's account list (must stay empty)
 	extraLocked := int64(0)
 	for _, l := range k.GetAllLockedUnds(ctx) {
-		if n := w.nameOf(l.Owner); strings.HasPrefix(n, "?") || n == "V" || !contains(w.Names, n) {
+		if n := w.nameOf(l.Owner); strings.HasPrefix(n, "?") || n == "V" || !contains(w.partyNames(), n) {
 			extraLocked += absInt(l.Amount.Amount)
 		}
 	}
